@@ -89,6 +89,10 @@ Definition rat_eq (a b : Z * Z) : bool := fst a * snd b =? fst b * snd a.
 Definition rat_close (v x : Z * Z) : bool :=
   Z.abs (fst v * snd x - fst x * snd v) * 2 ^ 40 <=? Z.abs (fst x) * snd v.
 
+(** |v - x| <= |x| * 2^-51 : at most about one unit in the last place of an f64 *)
+Definition rat_ulp (v x : Z * Z) : bool :=
+  Z.abs (fst v * snd x - fst x * snd v) * 2 ^ 51 <=? Z.abs (fst x) * snd v.
+
 (** * What every served sample must mean (from the property text and the help texts) *)
 Inductive quantity :=
 | QInt (z : Z)                    (* dimensionless number *)
@@ -163,7 +167,7 @@ Definition expected_families (s : obs_state) : list family :=
 
 (** * Judging one served sample.  Result: -1 fine; 1 = boolean published
     inverted (F10); 2 = a time in seconds published under a _nanoseconds name
-    (F11); 0 = any other violation. *)
+    (F11); 4 = uptime off by one unit in the last place; 0 = any other violation. *)
 Definition u_none : Z := 0.
 Definition u_seconds : Z := 1.
 Definition u_nanos : Z := 2.
@@ -196,7 +200,9 @@ Definition judge (base : string) (q : quantity) (u : Z) (v : chars) : Z :=
       | QSecondsTok t =>
           match parse_dec t with
           | Some dt =>
-              if u =? u_seconds then (if rat_eq r (rat_of_dec dt) then -1 else 0)
+              if u =? u_seconds then
+                (if rat_eq r (rat_of_dec dt) then -1
+                 else if rat_ulp r (rat_of_dec dt) then 4 else 0)
               else if u =? u_nanos then
                 (if rat_eq r (fst (rat_of_dec dt) * 10 ^ 9, snd (rat_of_dec dt)) then -1 else 0)
               else 0
@@ -305,10 +311,12 @@ Fixpoint distinct_names (l : list sfamily) : bool :=
   end.
 
 (** All findings of one response: [] = the property holds for it. *)
-Definition response_findings (s : obs_state) (resp : chars) : list Z :=
+Definition response_findings (s : obs_state) (js resp : chars) : list Z :=
   match parse_http resp with
   | None => [0]
   | Some h =>
+      if chars_eq (h_status h) (s2c "HTTP/1.1 500 Internal Server Error")
+         && (16384 <? Z.of_nat (length js)) then [8] else
       let status_ok := chars_eq (h_status h) (s2c "HTTP/1.1 200 OK") in
       let len_ok := match header "content-length" h with
                     | Some v => chars_eq v (print_int (Z.of_nat (length (h_body h))))
@@ -341,31 +349,35 @@ Definition case := (obs_state * ftoks * list Uint63.int * list Uint63.int)%type.
 Definition findings (c : case) : list Z :=
   let '(s, ft, js, resp) := c in
   filter (fun x => negb (x =? -1))
-    ((if json_ok s (unpack js) then [] else [0]) ++ response_findings s (unpack resp)).
+    ((if json_ok s (unpack js) then [] else [0]) ++ response_findings s (unpack js) (unpack resp)).
 
 Definition ok_C19 (c : case) : bool :=
   match findings c with [] => true | _ => false end.
 
-(** Known findings (see /verif/known_findings.txt):
-    1 : only boolean metrics are wrong, each published inverted (F10)
-    2 : only offset_from_master / mean_delay are wrong: seconds under _nanoseconds (F11)
-    3 : both of the above and nothing else. *)
+(** Known findings (see /verif/known_findings.txt), as a bit mask:
+    1 : boolean metrics published inverted (F10)
+    2 : offset_from_master / mean_delay: seconds under a _nanoseconds name (F11)
+    4 : uptime_seconds changed by one unit in the last place in the JSON hop
+    8 : observation message longer than 16 KiB: answered with 500
+    The mask is returned only when EVERY finding of the case is one of these;
+    any other violation makes the case an unlisted one (0). *)
 Definition kf_C19 (c : case) : Z :=
   let f := findings c in
   match f with
   | [] => 0
   | _ =>
-      if existsb (fun x => negb ((x =? 1) || (x =? 2))) f then 0
-      else if forallb (fun x => x =? 1) f then 1
-      else if forallb (fun x => x =? 2) f then 2
-      else 3
+      if existsb (fun x => negb ((x =? 1) || (x =? 2) || (x =? 4) || (x =? 8))) f then 0
+      else (if existsb (fun x => x =? 1) f then 1 else 0)
+           + (if existsb (fun x => x =? 2) f then 2 else 0)
+           + (if existsb (fun x => x =? 4) f then 4 else 0)
+           + (if existsb (fun x => x =? 8) f then 8 else 0)
   end.
 
 (** * Correspondence: the model reproduces the implementation's bytes *)
 Definition agree_C19 (c : case) : bool :=
   let '(s, ft, js, resp) := c in
   chars_eq (print (to_json s)) (unpack js)
-  && match render s ft with Some r => chars_eq r (unpack resp) | None => false end
+  && match respond s ft with Some r => chars_eq r (unpack resp) | None => false end
   && match parse (unpack js) with
      | Some v => match of_json v with
                  | Some s' => chars_eq (print (to_json s')) (unpack js)
